@@ -60,6 +60,16 @@ check("C20", "DESIGN.md 5/C20",
       "with finite differences of the materialised original term.",
       "Trusted: materialisation of a single numeric term; use_sympy=True is out of scope (sympy is not installed).")
 
+check("C19", "DESIGN.md 5/C19",
+      "TLA+ models Structured.tla (tree algebra), LayeredMapping.tla and FormulaSeq.tla (operation-history state machines) "
+      "model-checked in TLC; every enumerated tree / history replayed into the real objects",
+      "TLC checks the container laws on every tree of a bounded shape family (map visits leaves once in flatten order and preserves shape, "
+      "simplify idempotent and leaf-preserving, update/merge as dictionary merges) and on every operation history up to the bound "
+      "(top-first merge with writes confined to the private layer as an action property, ordering invariant and multiset law of the "
+      "formula sequence); each case is replayed into real Structured / LayeredMapping / SimpleFormula objects and alpha(object) compared.",
+      "Trusted: gamma/alpha between abstract values and the objects (alpha(gamma(t)) = t is itself checked). Bounded: shape family of "
+      "depth 3, histories of <= 3-4 operations over 3 keys / 6 terms.")
+
 NOT_YET = "check not yet built in this round (planned; see DESIGN.md section 5)"
 
 
